@@ -66,6 +66,48 @@ class FaultStorage:
             raise self.exc('iteration end')
 
 
+class ClosingStorage:
+    """a storage whose result is lazy and owns a resource: releasing it before it was read to the end fails (a driver
+    that refuses to close a cursor with unread rows, a dropped connection).  form 'gen': a generator whose clean-up
+    code raises; form 'obj': an iterator object with a close() method that raises"""
+    def __init__(self, objs, form, exc):
+        self.objs, self.form, self.exc = objs, form, exc
+
+    def find_for_inquiry(self, inquiry, checker=None):
+        if self.form == 'gen':
+            return self._gen()
+        return _ClosingIter(self.objs, self.exc)
+
+    def _gen(self):
+        done = False
+        try:
+            for p in self.objs:
+                yield p
+            done = True
+        finally:
+            if not done:
+                raise self.exc('released with unread rows')
+
+
+class _ClosingIter:
+    def __init__(self, objs, exc):
+        self.it, self.exc, self.done = iter(objs), exc, False
+
+    def __iter__(self):
+        return self
+
+    def __next__(self):
+        try:
+            return next(self.it)
+        except StopIteration:
+            self.done = True
+            raise
+
+    def close(self):
+        if not self.done:
+            raise self.exc('closed with unread rows')
+
+
 class FaultChecker:
     """delegates to a real checker; raises at the k-th fits call (1-based)"""
     def __init__(self, real, k, exc):
@@ -175,6 +217,31 @@ def run(ctx):
             if a is not False:
                 fails.append(('raise %s at fits call %d of %d' % (exc.__name__, kcall, nfits), a, 'must be False',
                               'fits-fault'))
+        # (b') the evaluation is aborted part-way through a lazy result whose release then fails as well
+        if nfits:
+            import sys
+            hook, sys.unraisablehook = sys.unraisablehook, (lambda *a: None)
+            try:
+                for form in ('gen', 'obj'):
+                    kcall = rng.randint(1, nfits)
+                    exc, exc2 = pick(rng, EXC), pick(rng, EXC)
+                    a = ask(ClosingStorage(objs, form, exc2), FaultChecker(polcase.make_checker(k), kcall, exc), inq)
+                    import gc
+                    gc.collect()
+                    out.evaluations += 1
+                    out.count('fault:fits+release')
+                    if a is not False:
+                        fails.append(('raise %s at fits call %d of %d over a lazy storage result (%s) whose release raises %s'
+                                      % (exc.__name__, kcall, nfits, form, exc2.__name__), a, 'must be False',
+                                      'fits-fault-release'))
+                # ... and a clean evaluation over such a result (read to the end: the release succeeds)
+                a = ask(ClosingStorage(objs, pick(rng, ['gen', 'obj']), Boom), polcase.make_checker(k), inq)
+                out.evaluations += 1
+                if a is not clean:
+                    fails.append(('clean evaluation over a lazy storage result with clean-up code', a,
+                                  'must equal the answer over a list (%s)' % clean, 'lazy-result'))
+            finally:
+                sys.unraisablehook = hook
         # (a') the same faults with an inquiry that cannot be printed (a context value whose repr / str raise): whatever
         #      the failure path wants to log about the inquiry, the answer is still False and nothing escapes
         try:
